@@ -311,6 +311,8 @@ def from_utf8(m, st, inst, args, t):
     s = args[0]
     if s[0] != "fat":
         raise Unanalysable("from_utf8 of %s" % s[0])
+    if m.hooks is not None:
+        m.hooks.on_region_scan(m, st, s, "UTF-8 validation")
     c = summ_content(s[3])
     if c is not None and (c & ~ASCII) == 0:
         ok = True
@@ -337,6 +339,9 @@ def slice_iter(m, st, inst, args, t):
     s = args[0]
     if s[0] != "fat":
         raise Unanalysable("iter of %s" % s[0])
+    if m.hooks is not None:
+        # an iterator over already-consumed input announces a linear pass over it
+        m.hooks.on_region_scan(m, st, s, "iteration")
     return ("prim", "iter", s, mk_int(0, m.p.ptr_bytes * 8))
 
 
@@ -418,6 +423,8 @@ def iterator_next(m, st, inst, args, t):
     if it[0] != "prim":
         return NotImplemented
     item, new = iter_next(m, st, it, None)
+    if item is not None:
+        st.flags.pop("$since", None)  # a finite iterator advanced: progress
     if item is None:
         if it[1] == "itermut" and m.hooks is not None:
             m.hooks.on_slots_exhausted(m, st, it)
@@ -465,6 +472,8 @@ def iter_rposition(m, st, inst, args, t):
         raise Unanalysable("rposition on partially consumed iterator")
     clo_tid = inst["args"][-1] if isinstance(inst["args"][-1], int) else None
     P = closure_table(m, st, inst, args[1], clo_tid)  # mask of bytes where the predicate holds
+    if m.hooks is not None:
+        m.hooks.on_region_scan(m, st, s, "rposition scan")
     summ = s[3]
     pb = m.p.ptr_bytes * 8
     # decide Some / None from the region summary
